@@ -19,15 +19,26 @@ def delimitedHint (h : Bytes) : Bool :=
 inductive SourceKind
   /-- `BytesIO`, `BufferedReader` over a file, `gzip`: `read(3)` + `seek` back. -/
   | seekable
-  /-- Raw non-seekable source whose first raw read returns `firstRead ≥ 1` bytes:
-      wrapped in a `BufferedReader`, `peek(3)` sees what one raw read delivered. -/
-  | rawNonSeekable (firstRead : Nat)
+  /-- Raw non-seekable source with a read schedule: the i-th `read(k)` returns at most `sched[i]`
+      (at least one) of the bytes that are left; once the schedule is used up a read returns all it
+      was asked for. The header is collected by `read(3 - len(header))` until three bytes are there
+      or the source is exhausted, and then put back in front (`_PushbackReader`). -/
+  | rawNonSeekable (sched : List Nat)
 deriving Repr, DecidableEq, Inhabited
+
+/-- `while len(header) < 3 and (chunk := inp.read(3 - len(header))): header += chunk` -/
+def readHeaderLoop : List Nat → Bytes → Bytes → Bytes
+  | [], hdr, rest => hdr ++ rest.take (3 - hdr.length)
+  | n :: sched, hdr, rest =>
+    if 3 ≤ hdr.length then hdr
+    else
+      let chunk := rest.take (min (max n 1) (3 - hdr.length))
+      if chunk.isEmpty then hdr else readHeaderLoop sched (hdr ++ chunk) (rest.drop chunk.length)
 
 def SourceKind.header (k : SourceKind) (b : Bytes) : Bytes :=
   match k with
   | .seekable => b.take 3
-  | .rawNonSeekable n => b.take (max n 1)
+  | .rawNonSeekable sched => readHeaderLoop sched [] b
 
 /-- Python's stream varint reader (`_DecodeVarint` on a file object): `none` = clean EOF. -/
 def readStreamVarint : Nat → Nat → Nat → Bytes → Except PyErr (Option (Nat × Bytes))
